@@ -219,12 +219,17 @@ def binding_contracts(tier='quick'):
                         'self.parameters["%s"].default' % k
                     checks.append('ufn("vt.check", self.parameters["%s"].'
                                   'value_type, %s, ret="Bool")' % (k, val))
+                # a keyword spelling is filtered exactly as the positional
+                # one: every supplied constant is type-checked here,
+                # whichever way it was passed (named or through **)
+                for n, k in kw.items():
+                    checks.append('ufn("vt.check", self.parameters["%s"].'
+                                  'value_type, kwargs["%s"], ret="Bool")'
+                                  % (k, n))
                 allok = ' and '.join(checks) or 'True'
                 ens = ['implies(result is not None, result[0] == %s and '
                        'result[1] == %s)' % (pos_t, kw_t),
-                       'implies(%s, result is not None)' % allok.replace(
-                           'True', 'True') if not any(
-                               k == '**' for k in kw.values()) else 'True',
+                       'implies(%s, result is not None)' % allok,
                        'implies(not (%s), result is None)' % allok]
             cs.append(Contract(
                 M + 'FunctionDefinition.map_args',
